@@ -26,7 +26,7 @@ import (
 )
 
 var st = stat.New("C09",
-	"Case = one proxy + scripted server, generated client limits (calls in flight per proxy 1..6 or default, send queue length 1..4 or default), 1..8 steps; step = 1..12 concurrent calls (or one) each with {timeout source: proxy default (TarsSetTimeout) | per-call (current.SetClientTimeout) | context deadline; value 60..300 ms; two-way or one-way} and a peer behaviour per request from {answer, answer after the deadline, silent, close connection now, close in the middle of the response, garbage bytes, illegal length prefix}; between steps the server may stop listening (dials are refused) and come back. Oracle per call: returns (watchdog 20 s), wall clock <= effective deadline + 150 ms + 10% (an overrun is re-measured by re-running the case alone twice; unconfirmed => inconclusive), outcome is reply or error. After quiescence (all calls returned, all scripted late replies delivered, +60 ms): the proxy's in-flight counter, the size of the pending-reply tables and the manager's invocation counter are back to 0; a late reply changes no other call's outcome (checked by serial as in C08). Non-trivial = case with >=1 timed-out call, >=1 peer fault and a later successful call. Distinct = distinct case JSON.",
+	"Case = one proxy + scripted server, generated client limits (calls in flight per proxy 1..6 or default, send queue length 1..4 or default), 1..8 steps; step = 1..12 concurrent calls (or one) each with {timeout source: proxy default (TarsSetTimeout) | per-call (current.SetClientTimeout) | context deadline; value 60..300 ms; two-way or one-way} and a peer behaviour per request from {answer, answer after the deadline, reply split in two pieces 5 ms apart, reply split with the second piece after the deadline and after the client's read timeout, silent, close connection now, close in the middle of the response, garbage bytes, illegal length prefix}; between steps the server may stop listening (dials are refused) and come back. Oracle per call: returns (watchdog 20 s), wall clock <= effective deadline + 150 ms + 10% (an overrun is re-measured by re-running the case alone twice; unconfirmed => inconclusive), outcome is reply or error; a call whose complete reply the server had written >= 150 ms before its deadline must succeed when neither this nor the previous step scripts a connection fault. After quiescence (all calls returned, all scripted late replies delivered, +60 ms): the proxy's in-flight counter, the size of the pending-reply tables and the manager's invocation counter are back to 0; a late reply changes no other call's outcome (checked by serial as in C08). Non-trivial = case with >=1 timed-out call, >=1 peer fault and a later successful call. Distinct = distinct case JSON.",
 	"on loopback a connection is established or refused within a millisecond, so the connection-establishment bound of the property contributes nothing to the deadline; black-holed addresses (slow dials) cannot be produced offline",
 	"the per-connection in-flight counter (transport level) is observed and reported as a class, not asserted: the property's state list names the proxy counter, the pending-reply table and the manager counter")
 
@@ -72,12 +72,12 @@ func draw(rt *rapid.T) Case {
 		n := rapid.SampledFrom([]int{1, 1, 1, 2, 4, 12}).Draw(rt, "ncalls")
 		for i := 0; i < n; i++ {
 			cl := Call{Source: rapid.SampledFrom([]string{"proxy", "percall", "ctx"}).Draw(rt, "source")}
-			cl.TimeoutMs = rapid.SampledFrom([]int{60, 100, 200, 300}).Draw(rt, "timeout")
+			cl.TimeoutMs = rapid.SampledFrom([]int{60, 100, 200, 300, 600}).Draw(rt, "timeout")
 			if cl.Source == "proxy" {
 				cl.TimeoutMs = c.ProxyTimeoutMs
 			}
 			cl.OneWay = rapid.IntRange(0, 7).Draw(rt, "oneway") == 0
-			cl.Peer = rapid.SampledFrom([]string{"answer", "answer", "answer", "late", "silent", "close", "close-mid", "garbage", "illegal-len"}).Draw(rt, "peer")
+			cl.Peer = rapid.SampledFrom([]string{"answer", "answer", "answer", "late", "silent", "close", "close-mid", "garbage", "illegal-len", "split-fast", "split-late", "split-late"}).Draw(rt, "peer")
 			stp.Calls = append(stp.Calls, cl)
 		}
 		c.Steps = append(c.Steps, stp)
@@ -95,6 +95,8 @@ var (
 )
 
 type callResult struct {
+	tok     int
+	start   time.Time
 	err     error
 	took    time.Duration
 	serial  int64
@@ -115,7 +117,8 @@ func runOnce(c Case) verdict {
 		return verdict{f: stat.Failf("harness-failure", "listen: %v", err)}
 	}
 	defer srv.Shutdown()
-	var plan sync.Map // token -> Call
+	var plan sync.Map     // token -> Call
+	var answered sync.Map // token -> time the complete reply had been written
 	srv.Handler = func(s *peer.Server, r *peer.Req) {
 		if len(r.Buffer) < 4 {
 			return
@@ -127,11 +130,34 @@ func runOnce(c Case) verdict {
 		cl := v.(Call)
 		switch cl.Peer {
 		case "answer":
-			s.Reply(r.Conn, r.Version, r.ID, 0, "", "own", 0)
+			// replies are written by a goroutine per request (a slow reply on the connection
+			// must not stop the server from reading the next request)
+			tok := int(binary.BigEndian.Uint32(r.Buffer))
+			go func() {
+				s.Reply(r.Conn, r.Version, r.ID, 0, "", "own", 0)
+				answered.Store(tok, time.Now())
+			}()
 		case "late":
 			go func() {
 				time.Sleep(time.Duration(cl.TimeoutMs+60) * time.Millisecond)
 				s.Reply(r.Conn, r.Version, r.ID, 0, "", "late", 0)
+			}()
+		case "split-fast", "split-late":
+			// the reply arrives in two pieces: 10 bytes now, the rest after 5 ms (must be
+			// delivered) or after the call's deadline and after the client's read timeout
+			// (a late reply: must be discarded without disturbing anybody else)
+			serial := s.NextSerial()
+			pkt := peer.EncodeReply(r.Version, 0, r.ID, 0, "", serial, nil)
+			gap := 5 * time.Millisecond
+			kind := "own"
+			if cl.Peer == "split-late" {
+				gap, kind = time.Duration(cl.TimeoutMs+130)*time.Millisecond, "late"
+			}
+			tok := int(binary.BigEndian.Uint32(r.Buffer))
+			go func() {
+				if s.WriteSplit(r.Conn, pkt, 10, gap, r.ID, serial, kind) == nil {
+					answered.Store(tok, time.Now())
+				}
 			}()
 		case "silent":
 		case "close":
@@ -160,9 +186,11 @@ func runOnce(c Case) verdict {
 	sp.TarsSetTimeout(c.ProxyTimeoutMs)
 	token := 0
 	maxLate := 0
+	listening := true
 	var v verdict
 	for si, stp := range c.Steps {
 		if stp.Refuse {
+			listening = false
 			srv.StopListening()
 			srv.CloseAllConns()
 			time.Sleep(5 * time.Millisecond)
@@ -171,7 +199,20 @@ func runOnce(c Case) verdict {
 			if err := srv.Relisten(); err != nil {
 				return verdict{f: stat.Failf("harness-failure", "relisten: %v", err)}
 			}
+			listening = true
 		}
+		// clean: neither this nor the previous step scripts a connection fault, the server is
+		// listening, and the previous step ended at least 20 ms ago
+		breaks := func(st Step) bool {
+			for _, cl := range st.Calls {
+				switch cl.Peer {
+				case "close", "close-mid", "garbage", "illegal-len":
+					return true
+				}
+			}
+			return st.Refuse
+		}
+		clean := listening && !breaks(stp) && (si == 0 || !breaks(c.Steps[si-1])) && !stp.Restore
 		results := make([]callResult, len(stp.Calls))
 		var wg sync.WaitGroup
 		for i, cl := range stp.Calls {
@@ -180,6 +221,9 @@ func runOnce(c Case) verdict {
 			plan.Store(tok, cl)
 			if cl.Peer == "late" && cl.TimeoutMs+60 > maxLate {
 				maxLate = cl.TimeoutMs + 60
+			}
+			if cl.Peer == "split-late" && cl.TimeoutMs+130 > maxLate {
+				maxLate = cl.TimeoutMs + 130
 			}
 			wg.Add(1)
 			go func(i int, cl Call, tok int) {
@@ -202,7 +246,7 @@ func runOnce(c Case) verdict {
 				}
 				t0 := time.Now()
 				err := sp.TarsInvoke(ctx, ct, "echo", buf, nil, nil, resp)
-				r := callResult{err: err, took: time.Since(t0)}
+				r := callResult{err: err, took: time.Since(t0), tok: tok, start: t0}
 				if cancel != nil {
 					cancel()
 				}
@@ -235,8 +279,15 @@ func runOnce(c Case) verdict {
 					v.f = stat.Failf("deadline-overrun", "step %d call %d (%s timeout %d ms, peer %s): returned after %v (limit %v) with err=%v", si, i, cl.Source, cl.TimeoutMs, cl.Peer, r.took.Round(time.Millisecond), limit, r.err)
 				}
 			}
+			if r.err != nil && !cl.OneWay && (cl.Peer == "answer" || cl.Peer == "split-fast") && clean {
+				if at, ok := answered.Load(r.tok); ok {
+					if left := r.start.Add(time.Duration(cl.TimeoutMs) * time.Millisecond).Sub(at.(time.Time)); left >= 150*time.Millisecond {
+						return verdict{f: stat.Failf("healthy-call-failed", "step %d call %d (peer %s, timeout %d ms): the complete reply had been written %v before the deadline and no connection fault was scripted in this or the previous step, yet the call failed: %v", si, i, cl.Peer, cl.TimeoutMs, left.Round(time.Millisecond), r.err)}
+					}
+				}
+			}
 			if r.err == nil && !cl.OneWay {
-				if cl.Peer != "answer" && cl.Peer != "late" {
+				if cl.Peer != "answer" && cl.Peer != "late" && cl.Peer != "split-fast" && cl.Peer != "split-late" {
 					return verdict{f: stat.Failf("phantom-success", "step %d call %d: peer behaviour %q never sends a valid reply, yet the call succeeded", si, i, cl.Peer)}
 				}
 				if s, ok := bySerial[r.serial]; !r.has || !ok || (s.Kind != "own" && s.Kind != "late") {
